@@ -5,9 +5,10 @@
 # then runs ./check <ID> quick (plus extra ids) against the changed tree and stores everything in /verif/seeded/<ID>-m<k>/.
 export GOFLAGS=-mod=mod GOPROXY=off GOSUMDB=off GOTOOLCHAIN=local
 ID="$1"; K="$2"; PKG="$3"; RUN="$4"; shift 4
-SRC=/tmp/mut/$ID-out
-WT=/tmp/seedwt-$ID-m$K
-OUT=/verif/seeded/$ID-m$K
+SRC=${SEEDSRC:-/tmp/mut}/$ID-out
+TAG=${SEEDTAG:-m}
+WT=/tmp/seedwt-$ID-$TAG$K
+OUT=/verif/seeded/$ID-$TAG$K
 rm -rf "$OUT"; mkdir -p "$OUT"
 cd / && git -C /repo worktree remove --force "$WT" 2>/dev/null
 git -C /repo worktree add --detach "$WT" -q || exit 2
@@ -16,16 +17,16 @@ res() { echo "$1" | tee -a "$OUT/verification.log"; }
 demo() { # run the demonstration in the worktree; echo PASS/FAIL
   if [ -f "$SRC/m${K}_demo_test.go" ] && [ "$PKG" != "-" ]; then
     cp "$SRC/m${K}_demo_test.go" "$WT/$PKG/zz_seed_demo_test.go"
-    (cd "$WT/$PKG" && timeout 600 go test -vet=off -count=1 -run "$RUN" . > /tmp/seeddemo.out 2>&1); rc=$?
+    (cd "$WT/$PKG" && timeout 600 go test -vet=off -count=1 -run "$RUN" . > /tmp/seeddemo-$ID-$TAG$K.out 2>&1); rc=$?
     rm -f "$WT/$PKG/zz_seed_demo_test.go"
   elif [ -d "$SRC/m${K}_demo" ]; then
     rm -rf "$WT/zz_seed_demo"; cp -r "$SRC/m${K}_demo" "$WT/zz_seed_demo"
-    (cd "$WT" && timeout 600 go run ./zz_seed_demo > /tmp/seeddemo.out 2>&1); rc=$?
+    (cd "$WT" && timeout 600 go run ./zz_seed_demo > /tmp/seeddemo-$ID-$TAG$K.out 2>&1); rc=$?
     rm -rf "$WT/zz_seed_demo"
   else
-    echo "no demo found" > /tmp/seeddemo.out; rc=99
+    echo "no demo found" > /tmp/seeddemo-$ID-$TAG$K.out; rc=99
   fi
-  tail -5 /tmp/seeddemo.out >> "$OUT/verification.log"
+  tail -5 /tmp/seeddemo-$ID-$TAG$K.out >> "$OUT/verification.log"
   [ $rc -eq 0 ] && echo PASS || echo FAIL
 }
 [ -f "$SRC/m${K}_demo_test.go" ] && cp "$SRC/m${K}_demo_test.go" "$OUT/demo_test.go"
@@ -37,9 +38,9 @@ res "== changed tree + demo"; B=$(demo); res "changed: $B"
 res "== changed tree + full suite"
 S=FAIL
 for attempt in 1 2; do
-  (cd "$WT" && go test -vet=off -count=1 -timeout 25m ./... > /tmp/seedsuite.out 2>&1) && { S=PASS; break; }
+  (cd "$WT" && go test -vet=off -count=1 -timeout 25m ./... > /tmp/seedsuite-$ID-$TAG$K.out 2>&1) && { S=PASS; break; }
 done
-grep -E "^(FAIL|---)" /tmp/seedsuite.out | head -5 >> "$OUT/verification.log"
+grep -E "^(FAIL|---)" /tmp/seedsuite-$ID-$TAG$K.out | head -5 >> "$OUT/verification.log"
 res "suite: $S"
 DET=""
 for cid in "$ID" "$@"; do
@@ -50,15 +51,15 @@ for cid in "$ID" "$@"; do
   if echo "$out" | grep -q "^VIOLATION"; then DET="$DET $cid"; fi
   rm -rf /verif/.build/$(echo $cid | tr A-Z a-z)-alt-*
 done
-python3 - "$ID" "$K" "$A" "$B" "$S" "$DET" <<'PY'
+python3 - "$ID" "$K" "$A" "$B" "$S" "$DET" "$SRC" "$TAG" <<'PY'
 import json,sys,os
-ID,K,A,B,S,DET=sys.argv[1:7]
-src='/tmp/mut/%s-out/m%s.json'%(ID,K)
+ID,K,A,B,S,DET,SRC,TAG=sys.argv[1:9]
+src='%s/m%s.json'%(SRC,K)
 try: meta=json.load(open(src))
 except Exception as e: meta={"note":"agent meta unreadable: %s"%e}
-meta.update({"seed_id":"%s-m%s"%(ID,K),"confirmed":{"clean_tree_demo":A,"changed_tree_demo":B,"changed_tree_full_suite":S},
+meta.update({"seed_id":"%s-%s%s"%(ID,TAG,K),"confirmed":{"clean_tree_demo":A,"changed_tree_demo":B,"changed_tree_full_suite":S},
   "valid": A=="PASS" and B=="FAIL" and S=="PASS","detected_by":DET.split(),"ran":"/verif/seedcheck.sh (scratch worktree of /repo HEAD; demo on clean and changed tree; go test -vet=off -count=1 ./...; VERIF_REPO=<worktree> ./check <ID> quick)"})
-json.dump(meta,open('/verif/seeded/%s-m%s/meta.json'%(ID,K),'w'),indent=1)
-print("RESULT %s-m%s valid=%s detected_by=%s"%(ID,K,meta["valid"],meta["detected_by"]))
+json.dump(meta,open('/verif/seeded/%s-%s%s/meta.json'%(ID,TAG,K),'w'),indent=1)
+print("RESULT %s-%s%s valid=%s detected_by=%s"%(ID,TAG,K,meta["valid"],meta["detected_by"]))
 PY
 cd / && git -C /repo worktree remove --force "$WT"
